@@ -1,4 +1,6 @@
 """C18 — run statistics agree with the returned rows."""
+import json
+
 import chem
 import pipeline
 from _rowmachine import prepare
@@ -87,7 +89,54 @@ def cli_stats_case(ctx):
         shutil.rmtree(tmp, ignore_errors=True)
 
 
+def merge_stats_cases(ctx, n):
+    """the real `merge_stats` on seeded dictionary pairs (subsets of the seven counters and foreign keys, any order, zero
+    values, empty operands): (a) statement — every key of either operand is reported with the sum of the two values, no
+    other key appears; (b) the Lean `mergeStats` returns the same ordered pairs"""
+    import copy
+
+    from synrbl.balancing import merge_stats
+
+    rng = ctx.rng
+    keys = ["reaction_cnt", "balanced_cnt", "rb_applied", "rb_solved", "mcs_applied", "mcs_solved", "confident_cnt", "extra", "z"]
+
+    def rand_dict():
+        ks = rng.sample(keys, rng.randint(0, len(keys)))
+        if rng.random() < 0.5:
+            ks = [k for k in keys if k in ks]  # stage order, as the pipeline writes them
+        return {k: rng.choice([0, 0, 1, 2, 3, 17, 400]) for k in ks}
+
+    pairs = [({}, {}), ({}, {"reaction_cnt": 2}), ({"reaction_cnt": 1}, {k: i for i, k in enumerate(keys[:7])}),
+             ({k: i for i, k in enumerate(keys[:7])}, {"reaction_cnt": 3}), ({"reaction_cnt": 1}, {"reaction_cnt": 2, "balanced_cnt": 0})]
+    pairs += [(rand_dict(), rand_dict()) for _ in range(n)]
+    ops, afters = [], []
+    for s, nw in pairs:
+        st = copy.deepcopy(s)
+        try:
+            merge_stats(st, copy.deepcopy(nw))
+        except Exception as e:
+            ctx.violation("merge_stats-raises", {"stats": s, "new_stats": nw}, "%s: %s" % (type(e).__name__, e), "synrbl/balancing.py:merge_stats")
+            return
+        ctx.case(("merge", json.dumps([list(s.items()), list(nw.items())])), nontrivial=bool(set(nw) - set(s)))
+        want = {k: s.get(k, 0) + nw.get(k, 0) for k in list(s) + [k for k in nw if k not in s]}
+        if st != want:
+            ctx.violation("merge_stats-loses-or-miscounts-a-key", {"stats": s, "new_stats": nw}, "merged %s, expected %s" % (st, want),
+                          "synrbl/balancing.py:merge_stats")
+            return
+        ops.append({"op": "mergeStats", "s": [[k, v] for k, v in s.items()], "n": [[k, v] for k, v in nw.items()]})
+        afters.append([[k, v] for k, v in st.items()])
+    for o, a, m in zip(ops, afters, ctx.driver(ops)):
+        if m.get("merged") != a:
+            ctx.corr_break("Batching.mergeStats", o, m.get("merged", m), a)
+            return
+    ctx.traces += len(ops)
+    ctx.count("merge_stats-pairs", len(ops))
+
+
 def search(ctx):
+    merge_stats_cases(ctx, 2000)
+    if ctx.violations:
+        return
     for tr in extra_runs(ctx, 60):
         statement(ctx, tr)
         if ctx.violations:
@@ -102,7 +151,9 @@ def run(ctx):
     built, drv = prepare(
         ctx,
         MODULE,
-        "statistics of the shared traced run, of the untraced runs under 5 configurations (see C01) and of seeded small runs (1-9 rows drawn from specials and curated balanced "
+        "the real merge_stats on seeded dictionary pairs (subsets of the counters and foreign keys in any order, empty operands) "
+        "against its statement (key union, value sums) and the Lean mergeStats (ordered pairs); every merge_stats call of every "
+        "traced run against the Lean function; statistics of the shared traced run, of the untraced runs under 5 configurations (see C01) and of seeded small runs (1-9 rows drawn from specials and curated balanced "
         "reactions, sometimes one malformed row) under batch sizes {None,1,2,3,k,k+1} and thresholds {0,0.5,0.9}; every "
         "equality/inequality of the property is evaluated on the real stats dict vs the real rows; the model's per-row "
         "statistics are summed and compared with the real stats of every traced batch (non-trivial = run with at least one row "
@@ -123,6 +174,7 @@ def run(ctx):
             statement(ctx, t3)
             ctx.count("threshold-run")
         cli_stats_case(ctx)
+        merge_stats_cases(ctx, 300 if ctx.tier == "quick" else 5000)
         pipeline.each_config(ctx, lambda name, c: statement(ctx, c))
         ctx.sample({"stats": tr["stats"], "rows": len(tr["out"] or [])})
     return ctx.finish(search)
